@@ -388,6 +388,56 @@ def run(ctx):
                     ctx.ob('R16.1', key + ':escape', False,
                            '%s returns a reference (%s) to %s, which is protected by %s: callers in worker threads read it after the '
                            'lock is released' % (f['name'], f['ret'], escapes[0]['n'], mname), '%s:%s' % (f['file'], escapes[0]['l']))
+                # pointers / references to protected state created under the lock and stored in something that
+                # outlives the lock scope (elements of a protected container referenced from an outer variable)
+                if b is not None:
+                    byref_vars = {}
+                    for x in walk(b['body']):
+                        if x.get('k') == 'CXXForRangeStmt' and x.get('var') and x.get('range') is not None:
+                            rng = strip(x['range'])
+                            if any(y.get('k') == 'MemberExpr' and y.get('n') in prot for y in walk(rng)) and \
+                                    (x['var'].get('t') or '').rstrip().endswith('&'):
+                                byref_vars[x['var']['di']] = x
+                    # declarations made while the lock is held
+                    inner_decls = {x['di'] for x in walk(b['body']) if x.get('k') == 'VarDecl' and id(x) in locked and x.get('di')}
+                    for x, parents in walk_parents(b['body']):
+                        if id(x) not in locked or x.get('k') != 'UnaryOperator' or x.get('op') != '&':
+                            continue
+                        opnd = strip(x['c'][0])
+                        src = None
+                        if opnd.get('k') == 'DeclRefExpr' and opnd.get('di') in byref_vars:
+                            src = 'an element of %s (loop variable %s)' % ([y['n'] for y in walk(strip(byref_vars[opnd['di']]['range'])) if y.get('k') == 'MemberExpr' and y.get('n') in prot][0], opnd.get('n'))
+                        elif opnd.get('k') == 'MemberExpr' and opnd.get('n') in prot:
+                            src = opnd['n']
+                        if not src:
+                            continue
+                        # where does the pointer go?  argument of a method call on / assignment to a variable declared outside the lock scope
+                        dest = None
+                        for pnode in reversed(parents):
+                            pk = pnode.get('k')
+                            if pk in ('CXXMemberCallExpr',) and pnode.get('c'):
+                                callee = pnode['c'][0]
+                                obj = strip(callee['c'][0]) if callee.get('c') else None
+                                if obj is not None and obj.get('k') == 'DeclRefExpr' and obj.get('di') and obj['di'] not in inner_decls:
+                                    dest = obj.get('n')
+                                break
+                            if pk in ('BinaryOperator', 'CXXOperatorCallExpr') and pnode.get('op') == '=':
+                                lhs = strip(pnode['c'][0] if pk == 'BinaryOperator' else pnode['c'][1])
+                                if lhs.get('k') == 'DeclRefExpr' and lhs.get('di') not in inner_decls:
+                                    dest = lhs.get('n')
+                                elif lhs.get('k') == 'MemberExpr':
+                                    dest = lhs.get('n')
+                                break
+                            if pk in ('ReturnStmt',):
+                                dest = 'the return value'
+                                break
+                            if pk in ('CompoundStmt', 'DeclStmt'):
+                                break
+                        if dest:
+                            ctx.ob('R16.1', key + ':ptr-escape', False,
+                                   '%s stores the address of %s in %s while holding %s; the pointer is used after the lock is released '
+                                   'while other workers modify the protected object' % (f['name'], src, dest, mname),
+                                   '%s:%s' % (f['file'], x['l']))
                 if not unl:
                     ctx.ob('R16.1', key, True, '%s accesses the fields protected by %s only under the lock' % (f['name'], mname), where)
                     continue
